@@ -357,6 +357,34 @@ func c08Run(w *W) {
 			c08Explore(w, c, bound, maxExec)
 		}
 	}
+	// many here-documents: n = 4 … 12 sites on one line, on n lines of a group, and one per pipeline stage; each body
+	// names its site, so a body attached to the wrong operator shows; every schedule with ≤ 1 preemption
+	for n := 4; n <= 12; n++ {
+		if !w.Mine() || w.TimeUp() {
+			continue
+		}
+		var sites []c08Site
+		for i := 0; i < n; i++ {
+			op, d := "<<", c08Delims[i%2]
+			if i%3 == 2 {
+				op = "<<-"
+			}
+			s, _ := mk(op, d, []string{fmt.Sprintf("body%d $v", i)})
+			sites = append(sites, s)
+		}
+		var group []string
+		group = append(group, "{")
+		for i := 0; i < n; i++ {
+			group = append(group, "cat @H")
+		}
+		group = append(group, "}")
+		for ti, t := range [][]string{{"cat" + strings.Repeat(" @H", n)}, group, {"cat @H" + strings.Repeat(" | cat @H", n-1)}} {
+			c := c08Case{Template: -2 - ti, Sites: sites}
+			c.Src = c08Render(t, sites)
+			w.Count("many_site_programs", 1)
+			c08Explore(w, c, 1, maxExec)
+		}
+	}
 	// second phase: every sentence of the derivation generator that carries a here-document (lists of leaves, every
 	// compound form with here-documents in conditions and bodies, a here-document earlier on the line than a compound
 	// command, closers directly after a redirected compound), in one-line and multi-line layout, under every schedule
